@@ -176,7 +176,7 @@ pub fn oracle(case: &Case) -> Verdict {
         match block_on(framer.write_framed(&mut w, m)) {
             Ok(Ok(())) => {}
             Ok(Err(e)) => vfail!("write-framed-error", "write_framed failed: {e}"),
-            Err(e) => vfail!("harness:poll-cap", "{e}"),
+            Err(e) => vfail!("framing-future-never-completes", "{e}"),
         }
         if w.out != f {
             vfail!("streaming-writer-differs-from-one-shot", "write_framed wrote {} bytes, frame_message gives {} for a {}-byte message", w.out.len(), f.len(), m.len());
